@@ -82,7 +82,7 @@ func init() {
 		Word32:   true,
 		DebugTag: true,
 		Level:    "exploration",
-		Rule: "E1 bounded-exhaustive enumeration: every string of length ≤N over {00,ff,a5,5a,01,80} (plus every single byte value, alone and in a 3-byte string, and 12 strings of 11..66 bytes) × every start bit in [0, 8·len+9] (and, for 5 strings, 56 far start bits: 2^16, 2^24, 2^28, 2^29, 2^30 (±1) and the last 41 int32 values) × every width 0..32 (and, on 64-bit builds, strings of 2^28-1, 2^28, 2^28+1 bytes - 2^31 bits, one more than an int32 counts - × start bits at both ends, around 2^30 and around the last int32 × 9 widths, against a byte-level reference): FromStr32 (count and value) and, for widths ≤30, PathOf against the slice [from, from+k) of the string's '0'/'1' rendering; PathsOf on generated key lists of every threshold size (round numbers ±1) from 1000 to 70000 keys × 4 run shapes (all equal, runs of 3, all distinct, runs of 4096 straddling every multiple of 4096) × dedup on/off; PathsOf on every key list of length ≤4 over 5 short keys × dedup on/off × a (from,height) grid against map + adjacent-dedup of the reference paths. " +
+		Rule: "E1 bounded-exhaustive enumeration: every string of length ≤N over {00,ff,a5,5a,01,80} (plus every single byte value, alone and in a 3-byte string, 12 strings of 11..66 bytes, and every string of ≤4 bytes over {c3,a9,'a'} and {e6,97,a5}: well-formed 2- and 3-byte UTF-8) × every start bit in [0, 8·len+9] (and, for 5 strings, 56 far start bits: 2^16, 2^24, 2^28, 2^29, 2^30 (±1) and the last 41 int32 values) × every width 0..32 (and, on 64-bit builds, strings of 2^28-1, 2^28, 2^28+1 bytes - 2^31 bits, one more than an int32 counts - × start bits at both ends, around 2^30 and around the last int32 × 9 widths, against a byte-level reference): FromStr32 (count and value) and, for widths ≤30, PathOf against the slice [from, from+k) of the string's '0'/'1' rendering; PathsOf on generated key lists of every threshold size (round numbers ±1) from 1000 to 70000 keys × 4 run shapes (all equal, runs of 3, all distinct, runs of 4096 straddling every multiple of 4096) × dedup on/off; PathsOf on every pair of the 40 keys of ≤3 bytes over {a,b,r} and every triple of the 13 keys of ≤2 bytes × every start bit 0..17 × heights {1,4,7,8,9,12,16,17,24,30} × dedup on/off; PathsOf on every key list of length ≤4 over 5 short keys × dedup on/off × a (from,height) grid against map + adjacent-dedup of the reference paths. " +
 			"A case is one call; non-trivial when 0 < k (some bit is taken from the string) and the string is not all-zero.",
 		Assumptions: []string{"strings longer than N and other byte values are not enumerated (the function reads at most 5 bytes; spans of 1..5 bytes and starts before/at/after the end are all inside)"},
 		Run:         c11Run,
@@ -164,6 +164,10 @@ func c11Run(c *mc.Ctx) {
 			strs = append(strs, c09StemV(n, v)+"\xa5\x5a\x01")
 		}
 	}
+	// well-formed multi-byte UTF-8 (code that walks a string by rune instead of by byte): every string of
+	// ≤4 bytes over {c3,a9,'a'} ("é" = c3 a9) and over {e6,97,a5} ("日" = e6 97 a5)
+	strs = append(strs, gen.Strings([]byte{0xc3, 0xa9, 'a'}, 4)...)
+	strs = append(strs, gen.Strings([]byte{0xe6, 0x97, 0xa5}, 4)...)
 	{ // the families overlap on a few strings: keep each once
 		seenS := map[string]bool{}
 		uniq := strs[:0]
@@ -433,6 +437,63 @@ func c11Run(c *mc.Ctx) {
 		c.Count(evals, nontriv)
 		c.Add("pathsof_calls", evals)
 	})
+	// PathsOf, windows at every alignment: adjacent keys that agree on their first bytes and differ
+	// (or end) in a later one, under EVERY start bit 0..17 × heights {1,4,7,8,9,12,16,17,24,30} - a window
+	// that starts inside a byte touches one byte more than ceil(height/8)
+	{
+		k3 := gen.Strings([]byte{'a', 'b', 'r'}, 3) // 40 keys
+		k2 := gen.Strings([]byte{'a', 'b', 'r'}, 2) // 13 keys
+		var lists2 [][]string
+		for _, x := range k3 {
+			for _, y := range k3 {
+				lists2 = append(lists2, []string{x, y})
+			}
+		}
+		for _, x := range k2 {
+			for _, y := range k2 {
+				for _, z := range k2 {
+					lists2 = append(lists2, []string{x, y, z})
+				}
+			}
+		}
+		var grid2 [][2]int32
+		for from := int32(0); from <= 17; from++ {
+			for _, h := range []int32{1, 4, 7, 8, 9, 12, 16, 17, 24, 30} {
+				grid2 = append(grid2, [2]int32{from, h})
+			}
+		}
+		c.Expect(int64(len(lists2)) * int64(len(grid2)) * 2)
+		c.Par(len(lists2), func(li int) {
+			ks := lists2[li]
+			bits := make([]string, len(ks))
+			for i, k := range ks {
+				bits[i] = ref.Bits(k)
+			}
+			var evals int64
+			for gi, g := range grid2 {
+				for d := 0; d < 2; d++ {
+					dedup := d == 1
+					want := []uint64{}
+					var prev uint64
+					for i := range ks {
+						p := c11RefPath(bits[i], g[0], g[1])
+						if dedup && i > 0 && p == prev {
+							continue
+						}
+						prev = p
+						want = append(want, p)
+					}
+					got, p := pathsOf(ks, g[0], g[1], dedup)
+					if p != "" || !eqU64(got, want) {
+						c.Fail(6<<50|int64(li)<<12|int64(gi)<<1|int64(d), "PathsOf", "PathsOf/aligned-or-not", c11Case{Keys: gen.BytesList(ks), From: g[0], W: g[1], Dedup: dedup}, p+hexs(got), hexs(want))
+					}
+					evals++
+				}
+			}
+			c.Count(evals, evals)
+			c.Add("pathsof_calls", evals)
+		})
+	}
 }
 
 // c11GiantString: l bytes (l around 2^28), mostly the same generator as the big strings.
